@@ -11,8 +11,10 @@ import (
 
 // memTracker is used only to LABEL a mismatch that the naive reference has already established - never to accept one.
 // It follows every written field value through the places lindb keeps it in (write buffer window / compress buffer of
-// a memory database generation, a flushed table file, a compacted table file) and builds two variations of the
-// reference that reproduce two behaviours of the unchanged tree:
+// a memory database generation, a flushed table file, a compacted table file) and builds variations of the
+// reference that reproduce four behaviours of the unchanged tree (two here, two in runner.droppedFamilies /
+// droppedFileFamilies: a family whose table blocks - or whose memory database - answer "not found" for the queried
+// fields/series loses the results of the other side too):
 //
 //   - window: writing a new slot inside the 15-slot window sets the window's end offset to that slot's offset even
 //     when a later slot of the window already holds a value; cells beyond the end offset are not returned by a query
@@ -51,8 +53,8 @@ type memTracker struct {
 	// flush time (whether or not it has data in that memory database)
 	genSeries   map[famKey]map[int]map[string]map[string]bool
 	placeSeries map[string]map[string]map[string]bool
-	seq      int
-	events   int // writes that shrank an end offset
+	seq         int
+	events      int // writes that shrank an end offset
 }
 
 type contribMeta struct {
